@@ -340,5 +340,27 @@ def run(ctx):
         ctx.note(f"kind-undecided ({len(undecided)}): " + "; ".join(undecided[:12]))
     ctx.floor("kind-decided", stats["kind-decided"], 1)
     ctx.floor("arity-decided", stats["arity-decided"], 1)
+    ctx.rule("T8 sibling tables: every validator that matches a schema's ReferenceValidation against a node id (static Scrypto validator, the "
+             "ValidatableCustomExtension<()> impl, the engine's runtime validator) maps each variant to the same NodeId predicate, and that table "
+             "is the audited one (IsGlobal -> is_global, ... ) — the typed codecs accept exactly what these predicates describe")
+    from c15 import arm_regions
+    CANON = {"IsGlobal": ["is_global"], "IsGlobalPackage": ["is_global_package"], "IsGlobalComponent": ["is_global_component"],
+             "IsGlobalResourceManager": ["is_global_resource_manager"], "IsGlobalTyped": ["is_global"], "IsInternal": ["is_internal"],
+             "IsInternalTyped": ["is_internal"]}
+    tables = {}
+    for name, f in sorted(F.fns.items()):
+        if not any(re.search(r"NodeId::is_\w+$", c[0]) for c in f.calls):
+            continue
+        b = ctx.body(name)
+        for bb, ed, ow, si in b.enum_guards(r"::ReferenceValidation$"):
+            ex = arm_regions(b, bb, ed)
+            tab = {v: sorted({t["f"].rsplit("::", 1)[1] for x, t in b.calls(r"NodeId::is_\w+$") if x in reg}) for v, reg in ex.items()}
+            if any(tab.values()):
+                tables[name] = (tab, ow, b.loc(bb))
+    ctx.floor("reference-validation-tables", len(tables), 3)
+    for name, (tab, ow, loc) in sorted(tables.items()):
+        short = ".".join(re.sub(r"<[^<>]*>", "", name).split("::")[-2:])
+        ctx.ob(f"reference-validation-table|{short}", tab == CANON and ow is None,
+               f"{short}: {tab}" + ("" if tab == CANON and ow is None else f" differs from the audited table {CANON}"), loc)
     ctx.assume("child type ids, validations and custom-value payload contents are not compared; manual codecs whose shape is not the derive's "
                "(delegating / hand-written) are counted as undecided, not as agreeing")
